@@ -2,11 +2,14 @@ import Driver.Util
 import LemoModel.Evm
 import LemoModel.EvmTable
 import LemoModel.ModExp
+import LemoModel.EvmGas
 namespace Driver.C16
 open LemoModel LemoModel.Evm Driver
 
 structure St where
   m : Machine := Machine.init
+  /-- words of memory of every live frame, innermost first (parallel to `m.frames`) -/
+  mem : List Nat := []
 
 def T : Table := EvmTable.table
 
@@ -33,6 +36,11 @@ def paramOf (P : Params) (name : String) : Option Nat :=
   | "logBalance" => some P.logBalance
   | "logCode" => some P.logCode
   | "logEvent" => some P.logEvent
+  | "memoryGas" => some P.memoryGas
+  | "quadCoeffDiv" => some P.quadCoeffDiv
+  | "memLimit" => some P.memLimit
+  | "expByteGas" => some P.expByteGas
+  | "sstoreSetGas" => some P.sstoreSetGas
   | _ => none
 
 /-- "-" or a comma separated list of ChangeLogType numbers -/
@@ -56,6 +64,35 @@ def showRle (l : List Nat) : String :=
   match rle l with
   | [] => "-"
   | r => ",".intercalate (r.map (fun (x, n) => if n > 1 then s!"{x}x{n}" else s!"{x}"))
+
+/-- `off:sSLOT` / `off:cCONST` joined by `;`, `-` for none -/
+def memRange? (s : String) : Option MemRange :=
+  match s.splitOn ":" with
+  | [o, r] =>
+    match o.toNat? with
+    | some o =>
+      if r.startsWith "s" then (r.drop 1).toNat?.map (fun n => ⟨o, some n, 0⟩)
+      else if r.startsWith "c" then (r.drop 1).toNat?.map (fun n => ⟨o, none, n⟩)
+      else none
+    | none => none
+  | _ => none
+
+def memRanges? (s : String) : Option (List MemRange) :=
+  if s == "-" then some [] else (s.splitOn ";").mapM memRange?
+
+def dyn? (s : String) : Option Dyn :=
+  match s.splitOn ":" with
+  | ["-"] => some .none
+  | ["exp"] => some .exp
+  | ["sstore"] => some .sstore
+  | ["suicide"] => some .suicide
+  | ["w", a, b] => match a.toNat?, b.toNat? with
+    | some a, some b => some (.words a b)
+    | _, _ => none
+  | ["b", a, b] => match a.toNat?, b.toNat? with
+    | some a, some b => some (.bytes a b)
+    | _, _ => none
+  | _ => none
 
 def callee? (s : String) (paddr preq : Nat) (pok : Bool) (pw : List Nat) : Option Callee :=
   match s with
@@ -94,11 +131,14 @@ def step (s : St) (w : List String) : St × String :=
     match paramOf T.params name, v.toNat? with
     | some a, some b => (s, if a == b then "ok" else "table-mismatch")
     | _, _ => (s, "table-mismatch")
-  | ["op", op, valid, mn, mx, wr, ha, re, ju, rt, hm, mg, cg] =>
+  | ["op", op, valid, mn, mx, wr, ha, re, ju, rt, hm, mg, cg, mem, g2, g1024, dyn] =>
     match op.toNat?, b? valid, parseInt? mn, parseInt? mx, b? wr, b? ha, b? re, b? ju, b? rt, b? hm, mg.toNat?, b? cg with
     | some op, some valid, some mn, some mx, some wr, some ha, some re, some ju, some rt, some hm, some mg, some cg =>
-      let live : OpInfo := if valid then ⟨true, mn.toNat, mx.toNat, wr, ha, re, ju, rt, hm, mg, cg⟩ else OpInfo.invalid
-      (s, if op < 256 ∧ T.rows.length = 256 ∧ T.info op = live ∧ (valid = false ∨ (0 ≤ mn ∧ 0 ≤ mx)) then "ok" else "table-mismatch")
+      match memRanges? mem, g2.toNat?, g1024.toNat?, dyn? dyn with
+      | some mem, some g2, some g1024, some dyn =>
+        let live : OpInfo := if valid then ⟨true, mn.toNat, mx.toNat, wr, ha, re, ju, rt, hm, mg, cg, mem, g2, g1024, dyn⟩ else OpInfo.invalid
+        (s, if op < 256 ∧ T.rows.length = 256 ∧ T.info op = live ∧ (valid = false ∨ (0 ≤ mn ∧ 0 ≤ mx)) then "ok" else "table-mismatch")
+      | _, _, _, _ => (s, "bad-op")
     | _, _, _, _, _, _, _, _, _, _, _, _ => (s, "bad-op")
   | ["pre", addr, wr, guarded] =>
     -- live row: address, declared state-modifying, probed "refused under readOnly"
@@ -113,49 +153,66 @@ def step (s : St) (w : List String) : St × String :=
     match gas.toNat?, b? early, b? amountZero, paddr.toNat?, preq.toNat?, b? pok, tags? wt with
     | some gas, some early, some az, some paddr, some preq, some pok, some wt =>
       match callee? callee paddr preq pok [] with
-      | some cal => ({ m := beginAsset T gas early az wt cal }, "ok")
+      | some cal =>
+        let m := beginAsset T gas early az wt cal
+        ({ m := m, mem := m.frames.map (fun _ => 0) }, "ok")
       | none => (s, "bad-op")
     | _, _, _, _, _, _, _ => (s, "bad-op")
   | ["begin", entry, gas, value, canT, callee, paddr, preq, pok, pw] =>
     match kind? entry, gas.toNat?, b? value, b? canT, paddr.toNat?, preq.toNat?, b? pok, tags? pw with
     | some k, some gas, some value, some canT, some paddr, some preq, some pok, some pw =>
       match callee? callee paddr preq pok pw with
-      | some cal => ({ m := begin T k gas value canT cal }, "ok")
+      | some cal =>
+        let m := begin T k gas value canT cal
+        ({ m := m, mem := m.frames.map (fun _ => 0) }, "ok")
       | none => (s, "bad-op")
     | _, _, _, _, _, _, _, _ => (s, "bad-op")
-  | ["s", op, sl, cost, memOv, gasErr, execErr, wr, retLen, value, req, canT, callee, paddr, preq, pok, pw] =>
-    match op.toNat?, sl.toNat?, cost.toNat?, b? memOv, b? gasErr, b? execErr, tags? wr, retLen.toNat? with
-    | some op, some sl, some cost, some memOv, some gasErr, some execErr, some wr, some retLen =>
-      match b? value, req.toNat?, b? canT, paddr.toNat?, preq.toNat?, b? pok, tags? pw with
-      | some value, some req, some canT, some paddr, some preq, some pok, some pw =>
+  | ["s", op, sl, execErr, wr, retLen, canT, callee, paddr, preq, pok, pw, bits, stk] =>
+    match op.toNat?, sl.toNat?, b? execErr, tags? wr, retLen.toNat?, b? canT, paddr.toNat?, preq.toNat? with
+    | some op, some sl, some execErr, some wr, some retLen, some canT, some paddr, some preq =>
+      match b? pok, tags? pw, tags? stk, bits.toList with
+      | some pok, some pw, some st, [b0, b1, b2] =>
         match callee? callee paddr preq pok pw, s.m.frames with
         | some cal, f :: _ =>
           let info := T.info op
-          let c0 : Choice := { op := op, stackLen := sl, memOverflow := memOv, gasErr := gasErr, execErr := execErr,
-                               wtags := wr, retLen := retLen, value := value, reqGas := req, canTransfer := canT, callee := cal }
-          let fixed := info.minGas + (match T.kindOf op with
-            | some k => if k ≠ .create ∧ withValue k c0 then T.params.callValueTransferGas else 0
-            | none => 0)
-          let c : Choice := { c0 with extra := cost - fixed }
+          let kind := T.kindOf op
+          -- operands the model reads off the stack itself
+          let value : Bool := match kind with
+            | some .create => st.getD 0 0 ≠ 0
+            | some .call => st.getD 2 0 ≠ 0
+            | some .callCode => st.getD 2 0 ≠ 0
+            | _ => false
+          let req := st.getD 0 0
+          let cur := s.mem.headD 0
+          let gbits : EvmGas.GasBits := { slotEmpty := b0 == '1', beneficiaryNew := b1 == '1', calleeNew := b2 == '1' }
+          let gr := EvmGas.gasOf T.params info (decide (kind = some .call) && value) st cur gbits
+          let c : Choice := { op := op, stackLen := sl, execErr := execErr, wtags := wr, retLen := retLen,
+                              value := value, reqGas := req, canTransfer := canT, callee := cal,
+                              memOverflow := (match gr with | .memOverflow => true | _ => false),
+                              gasErr := (match gr with | .gasErr => true | _ => false),
+                              extra := (match gr with | .ok e _ => e | _ => 0) }
           let head := s!"{s.m.frames.length} {f.gas} {b01 s.m.readOnly} {s.m.journal.length} "
           let p := pre T s.m.readOnly f.gas c
-          let reachedGas : Bool := match p with
-            | .ok _ => true
-            | .error .oog => !gasErr
-            | .error _ => false
-          if reachedGas ∧ cost < fixed then (s, head ++ "cost-below-min")
-          else if reachedGas ∧ info.constGas ∧ cost ≠ fixed then (s, head ++ "cost-not-constant")
-          else
-            let v : String := match p with
-              | .error e => verdictName e
-              | .ok (_, child) =>
-                match T.kindOf op with
-                | some k => if k = .create then "ok" else s!"ok child={child}"
-                | none => if execErr then "err:exec" else if info.reverts then "revert" else "ok"
-            ({ m := Evm.step T s.m c }, head ++ v)
+          let newWords := match p, gr with
+            | .ok _, .ok _ w => w
+            | _, _ => cur
+          let v : String := match p with
+            | .error e => verdictName e ++ s!" mw={cur}"
+            | .ok (g, child) =>
+              let cost := f.gas - g - (if kind = some .create then child else 0)
+              match kind with
+              | some k => if k = .create then s!"ok mw={newWords} cost={cost}" else s!"ok mw={newWords} cost={cost} child={child}"
+              | none => (if execErr then "err:exec" else if info.reverts then "revert" else "ok") ++ s!" mw={newWords} cost={cost}"
+          let m' := Evm.step T s.m c
+          let lenB := s.m.frames.length
+          let lenA := m'.frames.length
+          let mem' := if lenA = lenB + 1 then 0 :: newWords :: s.mem.tail
+                      else if lenA = lenB then newWords :: s.mem.tail
+                      else s.mem.tail
+          ({ m := m', mem := mem' }, head ++ v)
         | some _, [] => (s, "no-frame")
         | none, _ => (s, "bad-op")
-      | _, _, _, _, _, _, _ => (s, "bad-op")
+      | _, _, _, _ => (s, "bad-op")
     | _, _, _, _, _, _, _, _ => (s, "bad-op")
   | ["modexp", b, e, m, dlen, hb, ran] =>
     -- header of a MODEXP call: the model answers RequiredGas and, when the harness ran it, what Run returns
@@ -177,7 +234,7 @@ def step (s : St) (w : List String) : St × String :=
   | ["end"] =>
     match s.m.result, s.m.frames with
     | some (r, g), [] =>
-      ({ m := Machine.init }, s!"{resName r} {g} {s.m.journal.length} {showRle (s.m.journal.map (entryType T.params))}")
+      ({ m := Machine.init, mem := [] }, s!"{resName r} {g} {s.m.journal.length} {showRle (s.m.journal.map (entryType T.params))}")
     | _, _ => ({ m := Machine.init }, s!"not-finished depth={s.m.frames.length}")
   | _ => (s, "bad-op")
 
